@@ -1,4 +1,6 @@
 import Infretis.Lemmas.RepexC05Init
+import Infretis.Lemmas.RepexC03RRestore
+import Mathlib.Data.List.Nodup
 /-!
 # C05 — `load_paths`: a fresh start from family paths gives `Init5`; the restart image of a state
 with a non-zero diagonal loads
@@ -145,18 +147,18 @@ theorem plus_ld {n tn : Nat} :
         exact this) hp
     simpa [List.append_assoc] using this
 
-/-- **`Init5` is what `load_paths` leaves behind on a fresh start** from `n − 1` initial paths with
-    pairwise distinct numbers below `trajNum` whose weight vectors are in C02's family
-    (`paths[0]` is the `[0-]` path, `paths[i+1]` the path of ensemble `i`). -/
-theorem init5_of_loadPaths (n workers tsteps cstep trajNum seed : Nat) (occ : List (List Int))
-    (ensEng : List (List Nat)) (restarted : Bool) (paths : List (Nat × List Rat × List Rat)) (s : St)
-    (hn : 2 ≤ n) (hlen : paths.length = n - 1) (hnd : (paths.map (·.1)).Nodup)
-    (hlt : ∀ p ∈ paths, p.1 < trajNum)
+/-- what `load_paths` establishes besides C03's slot facts, from any blank start state -/
+theorem loadPaths_fields {n tn : Nat} (s0 s : St) (paths : List (Nat × List Rat × List Rat))
+    (h0 : Ld n tn [] s0) (hnd : (paths.map (·.1)).Nodup) (hlt : ∀ p ∈ paths, p.1 < tn)
     (hfam : ∀ (i : Nat) (hi : i < paths.length), VecOk n ((i : Int) - 1) (paths[i]).2.1)
-    (h : loadPaths (blank n workers tsteps cstep trajNum seed occ ensEng restarted []) paths = .ok s) :
-    Init5 { s := s, jobs := [] } := by
-  have hinit := init_of_loadPaths n workers tsteps cstep trajNum seed occ ensEng restarted paths s
-    hn hlen hnd hlt h
+    (h : loadPaths s0 paths = .ok s)
+    (hlive : ∀ i, i < s.n - 1 → ∃ pn, s.trajs[i]? = some (some pn)) :
+    (∀ i, i < s.n - 1 → RowOk s.n i (s.W.getD i [])) ∧
+    (∀ i, i < s.n - 1 → entryM s.W i i ≠ 0) ∧
+    (∀ i pn, i < s.n - 1 → s.trajs[i]? = some (some pn) →
+      ∃ w, s.wts.lookup pn = some w ∧ padValid s ((i : Int) - 1) w = s.W.getD i []) ∧
+    (∀ k ∈ s.wts.map Prod.fst, k < s.trajNum) ∧ (∀ k ∈ s.frac.map Prod.fst, k < s.trajNum) ∧
+    (∀ x ∈ s.rows, x.1 < s.trajNum) := by
   unfold loadPaths at h
   split at h
   · exact absurd h (by simp)
@@ -165,8 +167,7 @@ theorem init5_of_loadPaths (n workers tsteps cstep trajNum seed : Nat) (occ : Li
   · exact absurd h (by simp)
   rename_i s1 hplus
   simp only [List.map_cons, List.nodup_cons] at hnd
-  have hL1 := plus_ld (n := n) (tn := trajNum) rest _ s1 0 []
-    (ld_blank n workers tsteps cstep trajNum seed occ ensEng restarted [])
+  have hL1 := plus_ld (n := n) (tn := tn) rest _ s1 0 [] h0
     (by simpa using hnd.2) (fun p hp => hlt p (List.mem_cons_of_mem _ hp))
     (fun j p hj => by
       obtain ⟨hj', hp⟩ := List.getElem?_eq_some_iff.mp hj
@@ -181,26 +182,38 @@ theorem init5_of_loadPaths (n workers tsteps cstep trajNum seed : Nat) (occ : Li
     simpa using this
   have hL := ld_step hL1 (by omega) hnd.1 (hlt _ (List.mem_cons_self ..)) hv0 h
   have hsn : s.n = n := hL.hn
-  refine ⟨hinit, ?_, ?_, ?_, ?_, ?_, ?_⟩
+  refine ⟨?_, ?_, ?_, ?_, ?_, ?_⟩
   · intro i hi
-    obtain ⟨pn, hpn, _⟩ := hinit.live i hi
-    show RowOk s.n i (s.W.getD i [])
+    obtain ⟨pn, hpn⟩ := hlive i hi
     rw [hsn]
     exact (hL.slot i pn hpn).1
   · intro i hi
-    obtain ⟨pn, hpn, _⟩ := hinit.live i hi
+    obtain ⟨pn, hpn⟩ := hlive i hi
     exact (hL.slot i pn hpn).2.1
   · intro i pn hi hpn
     obtain ⟨_, _, w, hw1, hw2⟩ := hL.slot i pn hpn
     refine ⟨w, hw1, ?_⟩
-    show padValid s ((i : Int) - 1) w = s.W.getD i []
     rw [padValid_eq_padN, hsn]; exact hw2
-  · show ∀ k ∈ s.wts.map Prod.fst, k < s.trajNum
-    rw [hL.wk, hL.htn]; exact hL.klt
-  · show ∀ k ∈ s.frac.map Prod.fst, k < s.trajNum
-    rw [hL.fk, hL.htn]; exact hL.klt
-  · show ∀ x ∈ s.rows, x.1 < s.trajNum
-    rw [hL.rows]; intro x hx; simp at hx
+  · rw [hL.wk, hL.htn]; exact hL.klt
+  · rw [hL.fk, hL.htn]; exact hL.klt
+  · rw [hL.rows]; intro x hx; simp at hx
+
+/-- **`Init5` is what `load_paths` leaves behind on a fresh start** from `n − 1` initial paths with
+    pairwise distinct numbers below `trajNum` whose weight vectors are in C02's family
+    (`paths[0]` is the `[0-]` path, `paths[i+1]` the path of ensemble `i`). -/
+theorem init5_of_loadPaths (n workers tsteps cstep trajNum seed : Nat) (occ : List (List Int))
+    (ensEng : List (List Nat)) (restarted : Bool) (paths : List (Nat × List Rat × List Rat)) (s : St)
+    (hn : 2 ≤ n) (hlen : paths.length = n - 1) (hnd : (paths.map (·.1)).Nodup)
+    (hlt : ∀ p ∈ paths, p.1 < trajNum)
+    (hfam : ∀ (i : Nat) (hi : i < paths.length), VecOk n ((i : Int) - 1) (paths[i]).2.1)
+    (h : loadPaths (blank n workers tsteps cstep trajNum seed occ ensEng restarted []) paths = .ok s) :
+    Init5 { s := s, jobs := [] } := by
+  have hinit := init_of_loadPaths n workers tsteps cstep trajNum seed occ ensEng restarted paths s
+    hn hlen hnd hlt h
+  obtain ⟨h1, h2, h3, h4, h5, h6⟩ := loadPaths_fields _ s paths
+    (ld_blank n workers tsteps cstep trajNum seed occ ensEng restarted []) hnd hlt hfam h
+    (fun i hi => by obtain ⟨pn, hpn, _⟩ := hinit.live i hi; exact ⟨pn, hpn⟩)
+  exact ⟨hinit, h1, h2, h3, h4, h5, h6⟩
 
 /-! ### `load_paths` succeeds -/
 
@@ -342,7 +355,7 @@ theorem filterMap_map_all_some {α : Type} (g : Nat → α) : ∀ (l : List (Opt
 /-- **The restart image loads.**  For a state satisfying the invariants whose diagonal weights are
     all non-zero (what `sort_trajstate` establishes), `restore (persist s)` with the live paths'
     recorded weight vectors passes every assertion of `load_paths`. -/
-theorem restore_loads {s : St} {H : List (Nat × Nat)} {tn tn' : Nat} (hc : Core s H tn') (hf : Fam s tn)
+theorem restore_loadsR {s : St} {H : List (Nat × Nat)} {tn tn' : Nat} (hc : CoreR s H tn') (hf : Fam s tn)
     (hdiag : ∀ i, i < s.n - 1 → entryM s.W i i ≠ 0) (workers tsteps : Nat) (occ : List (List Int))
     (ensEng : List (List Nat)) :
     ∃ s'', restore (persist s) s.n workers tsteps occ ensEng
@@ -396,5 +409,149 @@ theorem restore_loads {s : St} {H : List (Nat × Nat)} {tn tn' : Nat} (hc : Core
       · obtain ⟨cnt, hplus, _⟩ := hrow.2 h0
         exact hplus.1
     · exact absurd hj (by simp)
+
+/-- the same under C03's fresh-start invariant (kept under this name for other packages) -/
+theorem restore_loads {s : St} {H : List (Nat × Nat)} {tn tn' : Nat} (hc : Core s H tn') (hf : Fam s tn)
+    (hdiag : ∀ i, i < s.n - 1 → entryM s.W i i ≠ 0) (workers tsteps : Nat) (occ : List (List Int))
+    (ensEng : List (List Nat)) :
+    ∃ s'', restore (persist s) s.n workers tsteps occ ensEng
+      (fun pn => (s.wts.lookup pn).getD []) = .ok s'' :=
+  restore_loadsR hc.toR hf hdiag workers tsteps occ ensEng
+
+/-! ### the restored state is a start state with the family invariant -/
+
+/-- The state `scheduler()` starts from after a RESTART (C03's `InitR`: all slots idle, the jobs in
+    flight at the stop recorded in `locked0` for re-issue) with paths from the weight family, each
+    valid in its own ensemble, weights recorded, all recorded numbers below `traj_num`. -/
+structure Init5R (y : Sys) : Prop where
+  init : InitR y
+  rows : ∀ i, i < y.s.n - 1 → RowOk y.s.n i (y.s.W.getD i [])
+  diag : ∀ i, i < y.s.n - 1 → entryM y.s.W i i ≠ 0
+  wts : ∀ i pn, i < y.s.n - 1 → y.s.trajs[i]? = some (some pn) →
+    ∃ w, y.s.wts.lookup pn = some w ∧ padValid y.s ((i : Int) - 1) w = y.s.W.getD i []
+  wkeys : ∀ k ∈ y.s.wts.map Prod.fst, k < y.s.trajNum
+  fkeys : ∀ k ∈ y.s.frac.map Prod.fst, k < y.s.trajNum
+  rkeys : ∀ x ∈ y.s.rows, x.1 < y.s.trajNum
+
+theorem Init5R.inv5 {y : Sys} (h : Init5R y) : Inv5 y := by
+  have hinv := h.init.inv
+  refine ⟨hinv, ⟨h.rows, ?_, h.wts, h.wkeys, h.fkeys, h.rkeys⟩, ?_, ?_⟩
+  · apply idle_perm_pos_of_diag y.s.n _ _ hinv.core.lenW hinv.core.lenL hinv.core.ghost h.rows
+    intro i hi
+    exact h.diag i (hinv.core.unlocked_lt i hi)
+  · intro _ _ i hi
+    exact h.diag i (hinv.core.unlocked_lt i hi)
+  · intro j hj
+    rw [h.init.jobs] at hj
+    simp at hj
+
+/-- a history starts from a fresh start or from a restart -/
+def Start5 (y : Sys) : Prop := Init5 y ∨ Init5R y
+
+theorem Start5.inv5 {y : Sys} (h : Start5 y) : Inv5 y := by
+  rcases h with h | h
+  · exact h.inv5
+  · exact h.inv5
+
+theorem Start5.start {y : Sys} (h : Start5 y) : Start y := by
+  rcases h with h | h
+  · exact Or.inl h.init
+  · exact Or.inr h.init
+
+/-- **the restored state carries the family invariant**: if `restore (persist s)` (with the live
+    paths' recorded weight vectors) returns a state that is an `InitR` start state (C03:
+    `restore_is_initR`), that state is an `Init5R` start state. -/
+theorem restore_init5R {s s' : St} {H : List (Nat × Nat)} (hc : CoreR s H s.trajNum)
+    (hf : Fam s s.trajNum) (workers tsteps : Nat) (occ : List (List Int)) (ensEng : List (List Nat))
+    (h : restore (persist s) s.n workers tsteps occ ensEng
+      (fun pn => (s.wts.lookup pn).getD []) = .ok s')
+    (hinit : InitR { s := s', jobs := [] }) : Init5R { s := s', jobs := [] } := by
+  unfold restore at h
+  simp only [] at h
+  have hlive : ∀ o ∈ (persist s).active, ∃ pn, o = some pn := by
+    intro o ho
+    obtain ⟨j, hj⟩ := List.mem_iff_getElem?.mp ho
+    change s.trajs.dropLast[j]? = some o at hj
+    rw [List.getElem?_dropLast] at hj
+    split at hj
+    · rename_i hjl
+      rw [hc.lenT] at hjl
+      obtain ⟨pn, hpn, _⟩ := hc.live j hjl
+      rw [hpn] at hj
+      exact ⟨pn, by simpa using hj.symm⟩
+    · exact absurd hj (by simp)
+  rw [filterMap_map_all_some _ _ hlive] at h
+  have hb := ld_blank s.n workers tsteps (persist s).cstep (persist s).trajNum (persist s).seed occ
+    ensEng true (persist s).locked
+  -- what the j-th loaded path is
+  have hget : ∀ (j : Nat) (p : Nat × List Rat × List Rat),
+      (((persist s).active).map (fun o => ((o.getD 0), (s.wts.lookup (o.getD 0)).getD [],
+        (((persist s).frac.lookup (o.getD 0)).getD (List.replicate s.n 0)))))[j]? = some p →
+      j < s.n - 1 ∧ s.trajs[j]? = some (some p.1) ∧ p.1 < s.trajNum ∧
+        s.wts.lookup p.1 = some p.2.1 := by
+    intro j p hj
+    rw [List.getElem?_map] at hj
+    change (s.trajs.dropLast[j]?).map _ = some p at hj
+    rw [List.getElem?_dropLast] at hj
+    split at hj
+    · rename_i hjl
+      rw [hc.lenT] at hjl
+      obtain ⟨pn, hpn, hlt⟩ := hc.live j hjl
+      obtain ⟨w, hw1, _⟩ := hf.wts j pn hjl hpn
+      rw [hpn] at hj
+      simp only [Option.map_some, Option.getD_some, Option.some.injEq, hw1] at hj
+      subst hj
+      exact ⟨hjl, hpn, hlt, hw1⟩
+    · exact absurd hj (by simp)
+  obtain ⟨s0, hs0, h⟩ : ∃ s0, Ld s.n s.trajNum [] s0 ∧ loadPaths s0
+      (((persist s).active).map (fun o => ((o.getD 0), (s.wts.lookup (o.getD 0)).getD [],
+        (((persist s).frac.lookup (o.getD 0)).getD (List.replicate s.n 0))))) = .ok s' := by
+    refine ⟨_, ?_, h⟩
+    exact ⟨hb.hn, hb.lenW, hb.lenL, hb.htn, hb.rows, hb.wk, hb.fk, hb.klt, hb.slot⟩
+  obtain ⟨h1, h2, h3, h4, h5, h6⟩ := loadPaths_fields (n := s.n) (tn := s.trajNum) s0 s' _ hs0
+    (by
+      rw [List.nodup_iff_injective_getElem]
+      intro a b hab
+      apply Fin.ext
+      have ha := a.2
+      have hb' := b.2
+      simp only [List.length_map] at ha hb'
+      obtain ⟨pa, hpa⟩ : ∃ pa, (((persist s).active).map (fun o => ((o.getD 0),
+          (s.wts.lookup (o.getD 0)).getD [],
+          (((persist s).frac.lookup (o.getD 0)).getD (List.replicate s.n 0)))))[a.1]? = some pa :=
+        ⟨_, List.getElem?_eq_getElem (by simpa using ha)⟩
+      obtain ⟨pb, hpb⟩ : ∃ pb, (((persist s).active).map (fun o => ((o.getD 0),
+          (s.wts.lookup (o.getD 0)).getD [],
+          (((persist s).frac.lookup (o.getD 0)).getD (List.replicate s.n 0)))))[b.1]? = some pb :=
+        ⟨_, List.getElem?_eq_getElem (by simpa using hb')⟩
+      obtain ⟨ga1, ga2, _, _⟩ := hget a.1 pa hpa
+      obtain ⟨gb1, gb2, _, _⟩ := hget b.1 pb hpb
+      have e1 : pa.1 = pb.1 := by
+        have h1 := List.getElem?_eq_getElem a.2
+        have h2 := List.getElem?_eq_getElem b.2
+        rw [List.getElem?_map, hpa] at h1
+        rw [List.getElem?_map, hpb] at h2
+        simp only [Option.map_some, Option.some.injEq] at h1 h2
+        rw [h1, h2]; exact hab
+      rw [e1] at ga2
+      exact hc.inj a.1 b.1 pb.1 ga1 gb1 ga2 gb2)
+    (by
+      intro p hp
+      obtain ⟨j, hj⟩ := List.mem_iff_getElem?.mp hp
+      exact (hget j p hj).2.2.1)
+    (by
+      intro i hi
+      obtain ⟨g1, g2, _, g4⟩ := hget i _ (List.getElem?_eq_getElem hi)
+      obtain ⟨w, hw1, hw2⟩ := hf.wts i _ g1 g2
+      rw [g4] at hw1
+      simp only [Option.some.injEq] at hw1
+      rw [hw1]
+      unfold VecOk
+      have : (((i : Int) - 1) + 1).toNat = i := by omega
+      rw [this, ← padValid_eq_padN, hw2]
+      exact hf.rows i g1)
+    h
+    (fun i hi => by obtain ⟨pn, hpn, _⟩ := hinit.live i hi; exact ⟨pn, hpn⟩)
+  exact ⟨hinit, h1, h2, h3, h4, h5, h6⟩
 
 end Infretis.Repex
